@@ -49,7 +49,8 @@ class Query:
     def descriptor(self):
         d = {"query": self.name, "harness": self.harness, "defines": self.defines,
              "unwindset": self.unwindset, "unwind": self.unwind, "checks": self.checks,
-             "arch": self.arch or "x86_64-LP64-signed-char", "with_print": self.with_print,
+             "arch": {None: "x86_64 LP64 signed char", "uchar": "x86_64 LP64 unsigned char",
+                      "arm": "ILP32 unsigned char (goto-cc -m32 -funsigned-char, freestanding headers model/stubinc)"}[self.arch], "with_print": self.with_print,
              "unwinding_assertions": self.unwind_assert}
         d.update(self.tags)
         return d
@@ -322,10 +323,12 @@ class Engine:
         srcs = [os.path.join(VERIF, "harness", q.harness)]
         if not q.include_src:
             srcs += [os.path.join(REPO, SRC[s]) for s in q.sources]
+        if q.arch == "arm":
+            srcs.append(os.path.join(VERIF, "model", "stubinc", "libc_small.c"))
         gb = os.path.join(wd, "w.gb" if witness else "q.gb")
         cmd = ["goto-cc", "-std=c99"]
         if q.arch == "arm":
-            cmd += ["--arch", "arm"]   # ILP32, unsigned plain char
+            cmd += ["-m32", "-funsigned-char"]   # ILP32, unsigned plain char: the Cortex-M data model
         elif q.arch == "uchar":
             cmd += ["-funsigned-char"]
         cmd += self._incs(q) + self._cc_defs(q, witness) + srcs + ["-o", gb]
@@ -348,10 +351,6 @@ class Engine:
                "--object-bits", str(q.tags.get("object_bits", 12))]
         if not q.array_fs:
             cmd.append("--no-array-field-sensitivity")
-        if q.arch == "arm":
-            cmd += ["--arch", "arm"]
-        elif q.arch == "uchar":
-            cmd += ["--unsigned-char"]
         if witness:
             cmd += ["--no-standard-checks", "--no-unwinding-assertions", "--stop-on-fail"]
         else:
@@ -452,10 +451,57 @@ class Engine:
         left = self.deadline - time.time()
         return max(5, min(want, left))
 
+    def _symtab(self, q, wd, rec):
+        """C17 side condition: no writable static-lifetime symbol defined by the library units"""
+        objs = []
+        for s in q.sources:
+            o = os.path.join(wd, s + ".gb")
+            cmd = ["goto-cc", "-std=c99", "-c"] + self._incs(q) + self._cc_defs(q, False) + [os.path.join(REPO, SRC[s]), "-o", o]
+            rc, out, *_ = sh(cmd, cwd=wd, timeout=120)
+            if rc != 0:
+                rec["reason"] = "goto-cc failed: " + out[-300:]
+                return
+            objs.append((s, o))
+        bad = []
+        nsym = 0
+        for s, o in objs:
+            rc, out, *_ = sh(["goto-instrument", "--show-symbol-table", "--json-ui", o], cwd=wd, timeout=120)
+            try:
+                data = json.loads(out[out.index("["):])
+            except Exception:
+                rec["reason"] = "cannot read symbol table"
+                return
+            for e in data:
+                if isinstance(e, dict) and "symbolTable" in e:
+                    for k, v in e["symbolTable"].items():
+                        nsym += 1
+                        if not v.get("isStaticLifetime") or v.get("isType"):
+                            continue
+                        t = v.get("type") or {}
+                        if t.get("id") == "code" or k.startswith("__CPROVER") or k.startswith("__PRETTY") or "::__func__" in k:
+                            continue
+                        if "#constant" in json.dumps(t):
+                            continue
+                        if v.get("isExtern"):
+                            continue
+                        bad.append("%s (%s)" % (k, SRC[s]))
+        rec["stats"] = {"steps": nsym, "vccs": 1}
+        if bad:
+            rec["verdict"] = "fail"
+            rec["failed"] = [{"property": "symtab", "description": "PROP C17 writable static-lifetime symbol: " + b} for b in bad[:8]]
+            rec["confirmed"] = True
+            rec["_leaves"] = {}
+            rec["cex_inputs"] = {"writable_statics": bad}
+        else:
+            rec["verdict"] = "hold"
+            rec["props_checked"] = nsym
+
     def _run_one_locked(self, q, wd, rec):
         if self.deadline is not None and time.time() > self.deadline:
             rec["reason"] = "tier budget exhausted before start"
             return
+        if q.harness == "h_symtab.c":
+            return self._symtab(q, wd, rec)
         gb, log = self.build_goto(q, wd, witness=False)
         if gb is None:
             rec["verdict"] = "skipped" if q.include_src else "undecided"
@@ -463,6 +509,10 @@ class Engine:
             return
         if q.group not in self.functions_encoded:
             self.functions_encoded[q.group] = self.list_functions(gb, wd, q)
+        if q.defines.get("NOALLOC"):
+            # C17 (ii): recursion bound 0 for every library function: any re-entry fails its recursion unwinding assertion
+            for f in self.list_functions(gb, wd, q):
+                q.unwindset.setdefault(f, 0)
         scale = 1
         for attempt in (1, 2):
             outp = os.path.join(wd, "cbmc.json")
